@@ -82,6 +82,8 @@ def doctype_variants(secret, dtd, rng):
 
 
 def run(ctx):
+    global c12
+    from harness.props import c12          # (the harness's own imports happen before anything is recorded)
     import suds
     import suds.cache
     import suds.client
@@ -334,7 +336,7 @@ def run(ctx):
                             # no location, a namespace other loads of this process have fetched from somewhere
                             '<xsd:import namespace="urn:inc"/>',
                             "WSDL-IMPORT-RELATIVE",
-                            "WSDL-IMPORT-NO-LOCATION", "WSDL-IMPORT-EMPTY-LOCATION",
+                            "WSDL-IMPORT-NO-LOCATION", "WSDL-IMPORT-EMPTY-LOCATION", "WSDL-FOREIGN-SCHEMA-ELEMENT",
                             "SCHEMALOCATION-HINT",
                             # an explicit location for a namespace suds has a built-in location for: the named copy is
                             # the document asked for, not the built-in one
@@ -348,6 +350,13 @@ def run(ctx):
                                 # when a file of that name happens to lie in the working directory
                                 main = wsdlkit.wsdl_doc(schema, "f", "fResponse").replace(
                                     b"<wsdl:types>", b'<wsdl:import namespace="urn:inc" location="local.xsd"/><wsdl:types>', 1)
+                            elif extra_decl == "WSDL-FOREIGN-SCHEMA-ELEMENT":
+                                # an element called `schema` of another vocabulary under wsdl:types is no XSD schema:
+                                # what it holds names no document
+                                main = wsdlkit.wsdl_doc(schema, "f", "fResponse").replace(
+                                    b"<wsdl:types>", b'<wsdl:types><o:schema xmlns:o="urn:not-xsd" targetNamespace="urn:fs">'
+                                    b'<xsd:import namespace="urn:fx" schemaLocation="http://127.0.0.1:9/foreign-schema.xsd"/>'
+                                    b'<xsd:include schemaLocation="file://' + local.encode() + b'"/></o:schema>', 1)
                             elif extra_decl.startswith("WSDL-IMPORT-"):
                                 # a wsdl:import that names no location names no document: its namespace is a name
                                 main = wsdlkit.wsdl_doc(schema, "f", "fResponse").replace(
@@ -378,7 +387,7 @@ def run(ctx):
                                 out.append(type(e).__name__)
                             if extra_decl.startswith(("<xl:", '<xsd:import namespace="http://127.0.0.1', "<xsd:redefine",
                                                       '<xsd:import namespace="urn:inc"/>', "SCHEMALOCATION-HINT",
-                                                      "WSDL-IMPORT-NO-LOCATION")) and len(asked) != 1:
+                                                      "WSDL-IMPORT-NO-LOCATION", "WSDL-FOREIGN-SCHEMA-ELEMENT")) and len(asked) != 1:
                                 out.append("%s fetched: %r" % (MARK, asked[1:]))
                             if any(u.startswith("file:") or not u.startswith(("http://fetch.invalid/", "suds:"))
                                    for u in asked):
@@ -629,6 +638,46 @@ def run(ctx):
                             if asked != ["http://fetch.invalid/main.wsdl"] + extra_urls:
                                 out.append("%s fetched (%s): %r" % (MARK, label, asked[1:]))
                         return " ".join(out)
+                    def ep_graph_shapes_of_c12():
+                        # two shapes from the document-graph checks, seen from here: every URL fetched is one a document
+                        # names - (a) a same-namespace schema document of another folder with a relative include, (b) two
+                        # documents whose locations differ only in letter case, through a document cache
+                        import io
+                        out = []
+                        err, opened, want = c12.same_namespace_in_two_documents()
+                        if err is not None or opened != want:
+                            out.append("%s fetched (consolidated relative location): %r %r" % (MARK, err, sorted(set(opened) - set(want))))
+                        XS_ = "http://www.w3.org/2001/XMLSchema"
+
+                        def xsd_(ns, tname):
+                            return ('<xsd:schema xmlns:xsd="%s" targetNamespace="%s"><xsd:complexType name="%s"><xsd:sequence>'
+                                    '<xsd:element name="m" type="xsd:int"/></xsd:sequence></xsd:complexType></xsd:schema>'
+                                    % (XS_, ns, tname)).encode()
+                        u1, u2 = "http://fetch.invalid/s/Types.xsd", "http://fetch.invalid/s/types.xsd"
+                        docs_ = {"http://fetch.invalid/main.wsdl": wsdlkit.wsdl_doc(
+                            '<xsd:import namespace="urn:one" schemaLocation="%s"/><xsd:import namespace="urn:two" schemaLocation="%s"/>'
+                            % (u1, u2) + schema, "f", "fResponse"), u1: xsd_("urn:one", "One"), u2: xsd_("urn:two", "Two")}
+                        asked = []
+
+                        class TG(suds.transport.Transport):
+                            def open(self, request):
+                                asked.append(str(request.url))
+                                return io.BytesIO(docs_[str(request.url)])
+
+                            def send(self, request):
+                                raise AssertionError("no send")
+                        cd = os.path.join(work, "cache-case-%d" % (abs(hash(name)) % 10**6))
+                        try:
+                            cl = suds.client.Client("http://fetch.invalid/main.wsdl", transport=TG(),
+                                                    cache=suds.cache.DocumentCache(location=cd), cachingpolicy=0)
+                            cl.factory.create("{urn:one}One")
+                            cl.factory.create("{urn:two}Two")
+                            out.append(str(cl))
+                        except Exception as e:
+                            out.append("%s a document was served as another one: %s: %s" % (MARK, type(e).__name__, e))
+                        if sorted(asked) != sorted(docs_):
+                            out.append("%s not each fetched: %r" % (MARK, asked))
+                        return " ".join(out)
                     extra = [("transport-fetch", ep_transport_fetch), ("str-reply", ep_str_reply),
                              ("store-served", ep_store_served), ("huge-reply", ep_huge_reply)] if rep == 0 and \
                         name in ("none", "internal-only") else []
@@ -641,6 +690,7 @@ def run(ctx):
                         extra.append(("cache-folder-only", ep_cache_folder_only))
                         extra.append(("cache-protocols", ep_cache_protocols))
                         extra.append(("include-chain", ep_include_chain))
+                        extra.append(("graph-shapes", ep_graph_shapes_of_c12))
                         extra.append(("doctor-and-builtin-locations", ep_doctor_and_builtin_locations))
                         extra.append(("default-store", ep_default_store))
                         if name == "none":
